@@ -47,6 +47,14 @@ CLAIMS = {
          "of all couplings at the start of every contact phase (loop-body contract)."),
    design='6 C07', technique='contract-based deductive verification: VC generation over the clang AST with callee contracts and a typed heap model + SMT',
    note=NOTE_COMMON + " Contact models 0 and 2 (other compile-time configurations) are named as unverified; several invariants of other properties are preconditions."),
+ 'C08': dict(
+   text=("Contracts where identities are created and the population changes: id loop of the solver constructor, division loop and renumbering "
+         "loop of cell_divider::run (arbitrary iterations, divide_cell by contract), the caller-visible id counter of solver::run_iteration "
+         "with cell_divider::run inlined (loop invariant on the solver's field), removal followed by renumbering in run_iteration, and the "
+         "coupling written by the per-pair contact rule (position index of the partner cell, node of the visited face). Any population size, "
+         "any position of the dividing / removed cells."),
+   design='6 C08', technique='contract-based deductive verification: loop-body / prefix contracts, inlined callee with loop invariant on caller state, callee contracts, SMT',
+   note=NOTE_COMMON + " divide_cell's contract is assumed here (C09); face-type indices and owner pointers are named unverified."),
  'C12': dict(
    text=("Contracts on the real geometric queries of cell: the face-cache routine establishes area/normal from the area vector of the current "
          "positions; volume and area are proved equal to explicit ghost sums over the used faces through loop contracts (std::accumulate included); "
